@@ -167,7 +167,7 @@ pub fn escape_table(cx: &mut Ctx, refd: &serde_json::Value, rule: &str) {
     match s.method("StringParser", "parse_octet") {
         None => cx.anchor_missing(rule, "parse_octet"),
         Some(po) => {
-            let t = sm::tsc(&po.block);
+            let t = sm::tsx(&po.block);
             let maxd = refd["octal"]["max_digits"].as_u64().unwrap();
             let loop_ok = t.contains(&format!("whileoctet_content.len()<{}{{ifletSome('0'..='7')=self.peek(){{octet_content.push(self.next_char().unwrap())}}else{{break;}}}}", maxd));
             let conv_ok = t.ends_with("letvalue=u32::from_str_radix(&octet_content,8).unwrap();char::from_u32(value).unwrap()}");
@@ -187,7 +187,7 @@ pub fn escape_table(cx: &mut Ctx, refd: &serde_json::Value, rule: &str) {
     match s.method("StringParser", "parse_unicode_literal") {
         None => cx.anchor_missing(rule, "parse_unicode_literal"),
         Some(pu) => {
-            let t = sm::tsc(&pu.block);
+            let t = sm::tsx(&pu.block);
             let ok = t.contains("foriin1..=literal_number{matchself.next_char(){Some(c)=>matchc.to_digit(16){Some(d)=>p+=d<<((literal_number-i)*4),None=>returnErr(unicode_error),},None=>returnErr(unicode_error),}}")
                 && t.contains("matchp{0xD800..=0xDFFF=>Ok(std::char::REPLACEMENT_CHARACTER),_=>std::char::from_u32(p).ok_or(unicode_error),}");
             if ok {
@@ -324,7 +324,7 @@ fn string_kinds(cx: &mut Ctx, refd: &serde_json::Value) {
                     (a, b) => cx.fail(rule, &format!("{}/prefix_len/{}", rule, k), &t.loc(m), &format!("prefix_len({}) is {:?}, expected {:?}", k, a, b)),
                 }
             }
-            if !sm::tsc(&m.block).ends_with("len.into()}") {
+            if !sm::tsx(&m.block).ends_with("len.into()}") {
                 cx.fail(rule, &format!("{}/prefix_len/result", rule), &t.loc(m), "prefix_len does not return the matched length");
             }
         }
@@ -440,7 +440,7 @@ fn radix_tables(cx: &mut Ctx, refd: &serde_json::Value) {
         }
     }
     // radix literals passed down
-    let all = sm::tsc(&lx.file);
+    let all = sm::tsx(&lx.file);
     let mut bad = vec![];
     for (pat, allowed) in [("self.radix_run(", vec!["10", "radix"]), ("self.lex_number_radix(start_pos,", vec!["16", "8", "2"])] {
         for (i, _) in all.match_indices(pat) {
@@ -462,7 +462,7 @@ fn value_conversions(cx: &mut Ctx) {
     cx.rule(rule, "numeric values come from trusted conversions of the scanned text: BigInt::from_str_radix(text, radix) for prefixed integers, text.parse::<BigInt>() for decimal integers, f64::from_str(text) for floats and imaginary literals; the only rewriting of the text is dropping underscores between digits and lower-casing the exponent marker; radix_run pushes every digit it takes");
     cx.floor(rule, 5);
     let Some(lx) = lr::load_lexer(cx, rule) else { return };
-    let t = sm::tsc(&lx.file);
+    let t = sm::tsx(&lx.file);
     let checks = [
         ("radix-int", "letvalue=BigInt::from_str_radix(&value_text,radix)", "prefixed integers: BigInt::from_str_radix(&value_text, radix)"),
         ("decimal-int", "letvalue=value_text.parse::<BigInt>().unwrap();", "decimal integers: value_text.parse::<BigInt>()"),
@@ -486,7 +486,7 @@ fn value_conversions(cx: &mut Ctx) {
         cx.fail(rule, &format!("{}/rewrite", rule), &lx.rel, "the literal text is rewritten in a way other than lower-casing the exponent marker");
     }
     match lr::lexer_method(&lx, "take_number") {
-        Some(m) if sm::tsc(&m.block) == "{lettake_char=Lexer::<T>::is_digit_of_radix(self.window[0],radix);take_char.then(||self.next_char().unwrap())}" => cx.ok(rule, "take_number consumes window[0] iff it is a digit of the radix"),
+        Some(m) if sm::tsx(&m.block) == "{lettake_char=Lexer::<T>::is_digit_of_radix(self.window[0],radix);take_char.then(||self.next_char().unwrap())}" => cx.ok(rule, "take_number consumes window[0] iff it is a digit of the radix"),
         Some(m) => cx.fail(rule, &format!("{}/take_number", rule), &lx.loc(m), "take_number is not `is_digit_of_radix(window[0], radix).then(|| next_char().unwrap())`"),
         None => cx.anchor_missing(rule, "take_number"),
     }
@@ -498,7 +498,7 @@ fn lex_string_order(cx: &mut Ctx) {
     cx.floor(rule, 4);
     let Some(lx) = lr::load_lexer(cx, rule) else { return };
     let Some(f) = lr::lexer_method(&lx, "lex_string") else { return cx.anchor_missing(rule, "lex_string") };
-    let t = sm::tsc(&f.block);
+    let t = sm::tsx(&f.block);
     let p_bs = t.find("ifc=='\\\\'{ifletSome(next_c)=self.next_char(){string_content.push('\\\\');string_content.push(next_c);continue;}}");
     let p_eol = t.find("ifc=='\\n'&&!triple_quoted{");
     let p_q = t.find("ifc==quote_char{");
@@ -554,7 +554,7 @@ fn conversion_flags(cx: &mut Ctx, refd: &serde_json::Value) {
     }
     // scanner arms
     if let Some(m) = s.method("StringParser", "parse_formatted_value") {
-        let t = sm::tsc(&m.block);
+        let t = sm::tsx(&m.block);
         for (ch, var) in &names {
             if t.contains(&format!("Some('{}')=>ConversionFlag::{},", ch, var)) {
                 cx.ok(rule, &format!("!{} -> ConversionFlag::{}", ch, var));
